@@ -107,13 +107,15 @@ def extract(repo="/repo", config="dev", force=False):
             raise InfraError("fact extraction failed (cargo exit %s, fact file %s)" % (
                 p.returncode, "present" if os.path.exists(tmp_out) else "missing"))
         os.replace(tmp_out, out)
-        # keep the cache small: drop older fact files of the same config
-        for f in os.listdir(CACHE):
-            if f.startswith("facts-%s-" % config) and f.endswith(".json") and os.path.join(CACHE, f) != out:
-                try:
-                    os.remove(os.path.join(CACHE, f))
-                except OSError:
-                    pass
+        # keep the cache small: only the eight most recent fact files of this config stay (several trees may be checked at the
+        # same time — scratch copies in the self-test — and must not evict one another between extraction and load)
+        olds = sorted((f for f in os.listdir(CACHE) if f.startswith("facts-%s-" % config) and f.endswith(".json") and os.path.join(CACHE, f) != out),
+                      key=lambda f: os.path.getmtime(os.path.join(CACHE, f)), reverse=True)
+        for f in olds[7:]:
+            try:
+                os.remove(os.path.join(CACHE, f))
+            except OSError:
+                pass
         return out, {"cached": False, "digest": sd, "files": len(files), "extract_s": round(time.time() - t0, 2)}
 
 
@@ -203,6 +205,7 @@ class Body:
         self._preds = None
         self._defs = None
         self.debug_names = {}
+        self.inlined_local_names = set(d["name"] for d in j.get("debug", []) if d.get("inlined_from"))
         for d in j.get("debug", []):
             pl = d["place"]
             if not pl["p"]:
